@@ -4,7 +4,7 @@ import Libp2pModel.Proofs.C24Micro4
 
 `chan X Y` = the frames travelling from endpoint `X` to endpoint `Y`, oldest first: what waits in
 `Y`'s inbound queue, then what `X` has written to the connection, then what is still in `X`'s sink.
-`Dir X Y` relates, for the direction `X → Y`, per substream: what `X`'s writes were reported to accept
+`DirInv X Y` relates, for the direction `X → Y`, per substream: what `X`'s writes were reported to accept
 (`acc`), the Data frames of that substream still in flight, and what `Y` has taken for it (`rx`).
 -/
 namespace C24
@@ -101,7 +101,7 @@ theorem mirror_num (i : Sid) : i.mirror.num = i.num := rfl
 def chan (X Y : State) : List Frame := inFrames Y ++ X.emitted
 
 /-- the directional invariant (`X` emits, `Y` receives) -/
-structure Dir (X Y : State) : Prop where
+structure DirInv (X Y : State) : Prop where
   /-- `Open` frames carry the initiator role -/
   k0 : ∀ id, Frame.opn id ∈ chan X Y → id.role = .dialer
   /-- initiator-side ids on the way are below `X`'s counter -/
@@ -129,8 +129,8 @@ structure Dir (X Y : State) : Prop where
 
 /-- both directions -/
 structure Full (X Y : State) : Prop where
-  xy : Dir X Y
-  yx : Dir Y X
+  xy : DirInv X Y
+  yx : DirInv Y X
 
 theorem Full.symm {X Y : State} (h : Full X Y) : Full Y X := ⟨h.yx, h.xy⟩
 
